@@ -30,10 +30,15 @@ def eval_spec(I, st, node, env, fi=None):
 
 def eval_clause(I, st, clause, env, fi=None, allow_effects=False):
     """evaluate a clause to a z3 Bool"""
+    prev = getattr(st, "assumed_toplevel", None)
+    # an assumed clause of the form exists(lambda x: ...) is skolemised (x may be an object the callee allocated)
+    st.assumed_toplevel = clause.node if allow_effects else None
     try:
         v = eval_spec(I, st, clause.node, env, fi)
     except Unsupported as e:
         raise Unsupported("in clause %r: %s" % (clause.text, e))
+    finally:
+        st.assumed_toplevel = prev
     return I.truthy(st, v)
 
 
@@ -114,7 +119,7 @@ def spec_builtin(I, st, name, args, kwargs, node):
         o = args[0]
         pre_alloc = st.old_alloc if st.old_alloc is not None else st.alloc0
         # `fresh(result)` in an assumed postcondition allocates the object
-        if not st.in_old:
+        if not st.in_old and not (st.bound_stack and any(o.term.eq(b) for b in st.bound_stack)):
             st.alloc = z3.Store(st.alloc, o.term, True)
         return mkbool(z3.And(o.term != NULL, z3.Not(z3.Select(pre_alloc, o.term))))
     if name == "allocated":
